@@ -419,12 +419,16 @@ def emit_mapped(F, kinds=KINDS, names=False):
                 if sink_name == "DataSection::active" and "memory" in kinds:
                     got = set()
                     a0 = peel(c["args"][0])
+                    src_e = c["args"][0]
                     if a0.get("k") == "Path" and a0["res"].get("r") == "local":
                         for st in walk(body):
                             if st.get("k") == "Let" and st["pat"].get("hid") == a0["res"]["hid"]:
-                                got = mapping_lookups(st.get("init", {}), maps)
-                    else:
-                        got = mapping_lookups(c["args"][0], maps)
+                                src_e = st.get("init", {})
+                    got = mapping_lookups(src_e, maps)
+                    # every branch that yields the index must look it up (a constant fast path for "memory 0" is unmapped)
+                    lvs = _value_leaves(src_e)
+                    if any(lf is None or not mapping_lookups(lf, maps) for lf in lvs):
+                        got = got | {"<unmapped branch>"}
                     ok = got == {"memory"}
                     r.ob(ok, {"sink": "active data memory index", "mapped_through": sorted(got)})
                     if not ok:
@@ -475,6 +479,25 @@ def emit_mapped(F, kinds=KINDS, names=False):
         n_sinks += _name_index_clause(F, r, fn, body, repo)
     r.count("sinks", n_sinks)
     return r
+
+
+def _value_leaves(e):
+    """the expressions that can be the value of `e` (through if/match/block tails); diverging arms are dropped"""
+    e = peel(e)
+    if e.get("k") == "If":
+        return _value_leaves(e["then"]) + (_value_leaves(e["else"]) if "else" in e else [None])
+    if e.get("k") == "Match" and e.get("src") not in ("ForLoopDesugar", "TryDesugar"):
+        # `match map.get(k) { Some(n) => *n, None => panic }` is itself the lookup: keep it whole
+        if any(x.get("k") == "MethodCall" and x["method"] == "get" for x in walk(e.get("scrut") or {})):
+            return [e]
+        out_ = []
+        for a2 in e["arms"]:
+            if a2["body"].get("ty") != "!":
+                out_ += _value_leaves(a2["body"])
+        return out_
+    if e.get("k") == "Block" and e.get("expr") is not None:
+        return _value_leaves(e["expr"])
+    return [e]
 
 
 def _name_index_clause(F, r, fn, body, repo):
